@@ -572,6 +572,10 @@ func c11Get(r *core.Report, name, pos string, ps []paths.Path) {
 				// `for empty { Wait }; remove` and `for { if non-empty { return remove }; Wait }` alike
 				nonEmpty := false
 				for j := i - 1; j >= 0; j-- {
+					if pa[j].Kind == "CUT" {
+						nonEmpty = true // the enumerator stopped unrolling an endless loop here: what follows is not a real continuation
+						break
+					}
 					if pa[j].Kind == "WAIT" {
 						break
 					}
